@@ -81,6 +81,41 @@ def _case(draw, tier):
     return dict(name=name, axis=axis, dom=dom, transient=transient, scheme=scheme, bc=bc, par=par, T=0.2)
 
 
+EXHAUSTIVE_NOTE = ("a fixed stratum is enumerated besides the generated cases: class (9) x radial origin {offset, axis} x scheme {central, upwind} x "
+                   "boundary pattern {Robin low / Neumann high, Neumann low / Robin high} x flow direction {v, -v} on graded grids, so that "
+                   "every class meets inflow and outflow through a non-Dirichlet side in every run")
+
+
+def enumerate_cases(tier):
+    for name in GRIDS:
+        kinds = AXES[name]
+        nd = len(kinds)
+        small = nd == 3
+        for axis in ([False, True] if kinds[0] == 'r' else [False]):
+            dom = []
+            for k in kinds:
+                lo = dict(x=-1.0, r=0.0 if axis else 1.0, thc=0.4, ph=0.4, ths=0.8)[k]
+                dom.append([lo, lo + 1.0, 0.3])
+            for scheme in ('central', 'upwind'):
+                for pat in (('R', 'N'), ('N', 'R')):
+                    for sgn in (1.0, -1.0):
+                        bc = []
+                        for ax, k in enumerate(kinds):
+                            ent = {}
+                            for side, kd in zip(('lo', 'hi'), pat):
+                                if side == 'lo' and k == 'r' and axis:
+                                    kd = 'N'
+                                ent[side] = dict(kind=kd, a0=1.0, b0=2.0 if side == 'lo' else 0.5)
+                            bc.append(ent)
+                        par = dict(c0=1.0, d0=1.0, d1=0.3, b0=0.5, lam=0.0, al=0.0, t=0.0)
+                        for i in range(3):
+                            par[f'a{i + 1}'] = [0.4, -0.5, 0.6][i]
+                            par[f'w{i + 1}'] = [1.7, 1.0, 1.7][i] if small else [1.7, 2.5, 1.0][i]
+                            par[f'p{i + 1}'] = [0.5, 1.3, 2.2][i]
+                            par[f'v{i + 1}'] = sgn * [0.7, -0.5, 1.0][i]
+                        yield dict(name=name, axis=axis, dom=dom, transient=False, scheme=scheme, bc=bc, par=par, T=0.2, enumerated=True)
+
+
 def strategy(tier):
     return _case(tier)
 
